@@ -92,11 +92,51 @@ def main():
                                   f"{(m*math.cos(p)).tolist()} / {(m*math.sin(p)).tolist()}", dict(kind="polarised", phi=deg(phi), delta=deg(dl)))
             run.case(("pol", phi, dl) if phi != dl else None)
     hvsr_relations(run, h)
+    split_commutes(run, h)
     return run.finish(
         rule="every behaviour of spec/Rotation.tla (deployed angle x sample set x up to 2 (thorough 3) targets, whole turns included) on "
              "SeismicRecording3C and the preprocessing orientation step; all (azimuth, deployed angle) pairs for polarised motion; spectral "
              "relations on seeded noise through process(); non-trivial = the final target differs from the deployed angle",
         exhaustive=True)
+
+
+def split_commutes(run, h):
+    """Composability across split: the windows of a recording deployed at an angle carry that orientation, so orienting the
+    windows is the same as orienting the recording and splitting it (also through preprocess with a window length)."""
+    rng = np.random.RandomState(run.seed + 44)
+    ts = h.TimeSeries
+    n, dt = 400, 0.01
+    for deployed in (30.0, 0.0, 275.0, -45.0):
+        mk = lambda: np.cumsum(rng.normal(size=n)) * 0.05 + rng.normal(size=n)
+        rec = h.SeismicRecording3C(ts(mk(), dt), ts(mk(), dt), ts(mk(), dt), degrees_from_north=deployed)
+        for target in (0.0, 60.0, 150.0, 400.0):
+            rep = dict(kind="split-orient", deployed=deployed, target=target)
+            a = copy.deepcopy(rec)
+            a.orient_sensor_to(target)
+            first = a.split(1.0)
+            second = copy.deepcopy(rec).split(1.0)
+            for w in second:
+                if abs((w.degrees_from_north - deployed) % 360.0) > 1e-9:
+                    run.violation("split:orientation-lost", f"a window of a recording deployed at {deployed} deg reports {w.degrees_from_north} deg", rep)
+                    break
+            for w in second:
+                w.orient_sensor_to(target)
+            ok = len(first) == len(second) and all(np.allclose(x.ns.amplitude, y.ns.amplitude, rtol=1e-12, atol=1e-12) and
+                                                    np.allclose(x.ew.amplitude, y.ew.amplitude, rtol=1e-12, atol=1e-12) and
+                                                    abs((x.degrees_from_north - y.degrees_from_north) % 360.0) < 1e-9 for x, y in zip(first, second))
+            if not ok:
+                run.violation("split:orient-commute", f"deployed {deployed} deg, target {target} deg: orienting the windows differs from orienting the recording and splitting it", rep)
+            # the same through preprocess (orientation None keeps the deployed angle in the windows)
+            st = h.HvsrPreProcessingSettings(orient_to_degrees_from_north=None, filter_corner_frequencies_in_hz=[None, None], window_length_in_seconds=1.0, detrend=None)
+            with warnings.catch_warnings():
+                warnings.simplefilter("ignore")
+                wins = h.preprocess([copy.deepcopy(rec)], st)
+            for w in wins:
+                w.orient_sensor_to(target)
+            if not (len(wins) == len(first) and all(np.allclose(x.ns.amplitude, y.ns.amplitude, rtol=1e-12, atol=1e-12) for x, y in zip(first, wins))):
+                run.violation("split:orient-commute:preprocess", f"deployed {deployed} deg, target {target} deg: windows from preprocess(orient=None) oriented afterwards "
+                              f"differ from orienting first", rep)
+            run.case(("split-orient", deployed, target))
 
 
 def hvsr_relations(run, h):
